@@ -223,7 +223,9 @@ class table__c_m_a_p(DefaultTable.DefaultTable):
                 )
             table.decompileHeader(data[offset : offset + int(length)], ttFont)
             if offset in seenOffsets:
-                table.data = None  # Mark as decompiled
+                if not isinstance(table, cmap_format_unknown):
+                    table.data = None  # Mark as decompiled
+                # (a subtable of unknown format consists of its data: keep it)
                 table.cmap = tables[seenOffsets[offset]].cmap
             else:
                 seenOffsets[offset] = i
